@@ -174,13 +174,15 @@ func propKzgMpc(t *rapid.T, c *cv) {
 
 	// (3) multi-component forgeries
 	kind := rapid.SampledFrom([]string{"g1_powers_of_other_tau", "g1_arbitrary_points", "g1_one_power_replaced", "g2_other_tau_with_matching_g1",
-		"pok_for_other_value", "everything_for_b_but_commitment_a", "consistent_other_secret"}).Draw(t, "forgery")
+		"pok_for_other_value", "everything_for_b_but_commitment_a", "consistent_other_secret",
+		"g2_all_infinity_g1_arbitrary", "g2_starts_with_infinity_g1_arbitrary", "degenerate_prev_g2_all_infinity_g1_arbitrary", "g1_all_infinity"}).Draw(t, "forgery")
 	b := c.drawNonZero(t, "b")
 	if b.Cmp(a) == 0 {
 		b = c.F.Add(b, bi(1))
 	}
 	forged := DeepCopy(next)
 	f := kmAccess(forged)
+	vprev := prev // the state the forged contribution is verified against
 	powers := func(tt *big.Int) []*big.Int {
 		out := make([]*big.Int, N)
 		pw := bi(1)
@@ -220,10 +222,45 @@ func propKzgMpc(t *rapid.T, c *cv) {
 		f.proof.Set(reflect.ValueOf(c.mpcProof(com, c.mulPoint(kG2, c.pokBase(com, ch, 0), b))).Elem())
 	case "consistent_other_secret": // a perfectly valid contribution with secret b (must be accepted)
 		forged, _ = c.kmContribute(prev, tau, b)
+	case "g2_all_infinity_g1_arbitrary", "g2_starts_with_infinity_g1_arbitrary", "degenerate_prev_g2_all_infinity_g1_arbitrary":
+		// a degenerate (identity) G2 side proves nothing about the G1 powers: SameRatioMany documents that it needs a
+		// non-zero representative in both groups, so a non-geometric G1 sequence must not get through
+		if kind == "degenerate_prev_g2_all_infinity_g1_arbitrary" {
+			// even when the previous state itself is degenerate ([τ]₂ = identity, so identity → identity is a valid
+			// update of the G2 part and the update proof holds)
+			vprev = DeepCopy(prev)
+			kmAccess(vprev).g2.Index(1).Set(reflect.Zero(c.g2T))
+			forged, _ = c.kmContribute(vprev, new(big.Int), a)
+			f = kmAccess(forged)
+		}
+		ls := make([]*big.Int, N)
+		ls[0] = bi(1)
+		for i := 1; i < N; i++ {
+			ls[i] = c.drawNonZero(t, fmt.Sprintf("arbg1_%d", i))
+		}
+		if N == 2 { // any two elements are "geometric": make the pair inconsistent with every ratio a G2 side could have
+			ls[1] = c.F.Add(c.F.Mul(a, tau), bi(1))
+		} else if c.F.Mul(ls[1], ls[1]).Cmp(ls[2]) == 0 {
+			ls[2] = c.F.Add(ls[2], bi(1))
+		}
+		f.g1.Set(c.ptVec(kG1, ls))
+		f.g2.Index(0).Set(reflect.Zero(c.g2T))
+		if kind != "g2_starts_with_infinity_g1_arbitrary" {
+			f.g2.Index(1).Set(reflect.Zero(c.g2T))
+		}
+	case "g1_all_infinity":
+		zs := make([]*big.Int, N)
+		for i := range zs {
+			zs[i] = new(big.Int)
+		}
+		f.g1.Set(c.ptVec(kG1, zs))
 	}
-	want, why := c.kmExpect(prev, forged, "")
-	err := c.kmVerify(prev, forged)
+	want, why := c.kmExpect(vprev, forged, "")
+	err := c.kmVerify(vprev, forged)
 	fk := fmt.Sprintf("forgery %s b=%s %s", kind, b.Text(16), key)
+	if strings.Contains(kind, "infinity") && want != mustReject {
+		t.Fatalf("harness error: degenerate forgery %s expected to be rejected, oracle says %s", kind, why)
+	}
 	if want == mustReject && err == nil {
 		t.Fatalf("kzg.MpcSetup/%s: FORGERY ACCEPTED: %s (%s) — prev.Verify(next) returned nil; %s", c.name, kind, why, fk)
 	}
